@@ -3,6 +3,7 @@ import OW.Kernels.Coeff
 import OW.Kernels.GR4J
 import OW.Kernels.Simhyd
 import OW.Kernels.Surm
+import OW.Kernels.Sacramento
 import OW.Spec.GR4J
 /- Kernel models of group RR (one owner; see /verif/AGENTS.md). Add imports above and entries to `models`.
 `GR4J#spec` / `GR4J#published` are not models of Go code: they are the independent specification OW/Spec/GR4J.lean
@@ -11,7 +12,7 @@ namespace OW.Kernels.Groups.RR
 open OW
 
 def models {α} [Num α] : List (KModel α) :=
-  [ Kernels.Coeff.model, Kernels.GR4J.model, Kernels.Simhyd.model, Kernels.Surm.model,
+  [ Kernels.Coeff.model, Kernels.GR4J.model, Kernels.Simhyd.model, Kernels.Surm.model, Kernels.Sacramento.model,
     Spec.GR4J.model, Spec.GR4J.modelPublished ]
 
 end OW.Kernels.Groups.RR
